@@ -57,6 +57,17 @@ def reply_mix(ctx, cfg, rounds=1, on_reply=None, tcp=True, own_src=0.03):
             for p in rng.sample([136, 33, 132, 17 ^ 0x80, 6 ^ 0x40], 2):
                 l4 = pkt.udp(e.cip, e.sip, gen.rnd_port(rng), gen.rnd_port(rng), sreq) if p != (6 ^ 0x40) else pkt.tcp(e.cip, e.sip, gen.rnd_port(rng), gen.rnd_port(rng), 1, 0, SYN)
                 emit("altproto", e.l3(p, l4))
+            # frames whose EtherType and IP version field disagree, or whose version field is not 4 / 6: whatever is done with
+            # them, an answer carries the request's EtherType and the proper version number
+            base = rng.choice([e.echo(rng.getrandbits(16), 1, b"version"), e.tcp(gen.rnd_port(rng), gen.rnd_port(rng), rng.getrandbits(32), 0, SYN),
+                               e.udp(gen.rnd_port(rng), gen.rnd_port(rng), stun.msg(1, stun.gen_tid(rng, True)))])
+            emit("mislabel", base[:12] + (b"\x08\x00" if v6 else b"\x86\xdd") + base[14:])
+            vb = bytearray(base)
+            vb[14] = (rng.choice([0, 1, 2, 3, 5, 7, 8, 9, 15, 6 if not v6 else 4]) << 4) | (vb[14] & 15)
+            if not v6:
+                vb[24:26] = b"\0\0"
+                vb[24:26] = struct.pack("!H", pkt.csum(bytes(vb[14:34])))
+            emit("version", bytes(vb))
             for fl in (SYN, SYN | ECE, SYN | CWR, SYN | PSH, SYN | URG, SYN | PSH | URG | ECE):
                 emit("syn", e.tcp(gen.rnd_port(rng), gen.rnd_port(rng), rng.choice([0, 1, 0xFFFFFFFF, rng.getrandbits(32)]), rng.getrandbits(32), fl))
             emit("finack", e.tcp(gen.rnd_port(rng), gen.rnd_port(rng), rng.choice([0xFFFFFFFF, rng.getrandbits(32)]), rng.getrandbits(32), FIN | ACK))
